@@ -147,7 +147,7 @@ theorem srv_translated_reviewed : dhcpSrvTranslated = ["getClientID", "Handler_t
     `IsValid`, `ParseOptions` and the transmission are C02 / C08 / C12's business; its dispatch on the message type is
     `Model.step` on the decoded op, covered by the step correspondence only) -/
 theorem srv_untranslated_reviewed : dhcpSrvUntranslated = [
-  "Handler_ProcessPacket: line 258: parameter type github.com/irai/packet.Frame"] := rfl
+  "Handler_ProcessPacket: line +0: parameter type github.com/irai/packet.Frame"] := rfl
 
 /-- the statements without a model counterpart (logging, locks, side traffic, the lease-file save, session effects that
     are environment ops of the model, the unmodelled fields Name / OfferExpiry / Count), in source order -/
